@@ -329,6 +329,11 @@ def _run(ctx):
         r = lg.rand_layout_tree(rng, ids, rng.choice([1, 2, 3]), valid=False, kinds_w={"block": 3, "inline": 5, "void_inline": 1, "void_block": 1, "text": 4, "html": 1, "obj": 1, "meta": 0, "dep": 0},
                                    root_kind=rng.choice(["block", "inline"]))
         add_exotic_breaks(rng, r)
+        if rng.random() < 0.35 and r["k"] == "tag":
+            # the tree's root is the document's own <body> (the user's element, flag and all, is the one that is written)
+            r["name"] = "body"
+            r["via_fn"] = False
+            ctx.count("saved_with_user_body_root")
         ctx.guard(check_saved_inline, ctx, r, ctx.scratch, witness={"recipe": r, "via": "save_html"})
         ctx.case(("saved", r), nontrivial=True)
     # very wide sibling lists (rendering must not depend on how many siblings there are)
